@@ -17,7 +17,7 @@ from ase import Atoms
 from ase.constraints import FixCom
 
 from calcs import Harmonic
-from common import Report
+from common import Hang, Report, watchdog
 from tlc import run_tlc
 
 
@@ -137,6 +137,7 @@ def run(tier: str) -> int:
     stride = 13 if tier == "quick" else (5 if len(cases) > 50000 else 1)
     kinds = ("canonical", "gc", "fbmc")
     nrep = 0
+    nhang = 0
     for ci, c in enumerate(cases):
         if ci % stride:
             continue
@@ -170,10 +171,17 @@ def run(tier: str) -> int:
                 attach(new, obs, logs)
                 return new
 
-            mc = execute(mc, c["plan"], is_mc, rebuild)
-            ref, rfiles = build(kind, seed, log_iv, with_log)
-            rlogs = attach(ref, obs)
-            ref.run(c["total"])
+            with watchdog(5):  # (a plan of at most 6 steps takes milliseconds)
+                mc = execute(mc, c["plan"], is_mc, rebuild)
+                ref, rfiles = build(kind, seed, log_iv, with_log)
+                rlogs = attach(ref, obs)
+                ref.run(c["total"])
+        except Hang:
+            nhang += 1
+            rep.violation(f"call-does-not-return:{tag}", f"{kind}: executing plan {c['plan']} (total {c['total']} steps) did not return within 5 s: a call performs (far) more than the requested number of steps", ctx)
+            if nhang >= 8:
+                break  # every further case of this kind would cost another 5 s and megabytes of output
+            continue
         except Exception as ex:  # noqa: BLE001
             rep.violation(f"raise:{tag}:{type(ex).__name__}", f"executing plan {c['plan']} on {kind} raised {ex!r}", ctx)
             continue
